@@ -74,6 +74,22 @@ def len_is_zero():
     return f
 
 
+def cmp_eq_between(call_pattern, field):
+    """`f(..) == x.field` (either order): e.g. the shared epoch just loaded equals the cached epoch."""
+    rx = re.compile(call_pattern)
+
+    def f(c):
+        if c.kind != "cmp" or c.data[0] != "==":
+            return False
+        def is_call(x):
+            return bool(x) and all(any(rx.search(t[2] or "") for t in K.root_calls(frozenset([o]))) for o in x)
+        def is_field(x):
+            return bool(x) and all(origin_proj_names(o)[1][-1:] == [("f", field)] for o in x)
+        a, b = c.data[1], c.data[2]
+        return (is_call(a) and is_field(b)) or (is_call(b) and is_field(a))
+    return f
+
+
 def any_of(*fs):
     return lambda c: any(f(c) for f in fs)
 
@@ -222,11 +238,13 @@ ENTRIES = {
         what="an EventSource action broadcasts its event on every path"),
     # ---- scheduler queue helpers (C10, C09)
     "periodic-reinserted": dict(
-        body="simulation::Simulation::step_to_next_bounded::pull_next_action", start=calls(r"scheduler::Action::next$"),
+        bodies_fn=lambda P: __import__("nx.rules.c10", fromlist=["x"]).pull_helpers(P), start=calls(r"scheduler::Action::next$"),
         effect=calls(r"PriorityQueue::insert$"), excuse=variant_is({"None"}, r"scheduler::Action::next$"),
         what="a pulled periodic action (next() is Some) is re-inserted on every path"),
     "cancelled-head-discarded": dict(
-        body="simulation::Simulation::step_to_next_bounded::{closure#0}", start=calls(r"scheduler::Action::is_cancelled$"),
+        bodies_fn=lambda P: [b for st in __import__("nx.rules.c01", fromlist=["x"]).stepping_fns(P) for b in P.family(st)
+                             if any(True for _ in b.calls(r"scheduler::Action::is_cancelled$")) and any(True for _ in b.calls(r"PriorityQueue::peek$"))],
+        start=calls(r"scheduler::Action::is_cancelled$"),
         effect=calls(r"PriorityQueue::pull$"), excuse=call_is(r"scheduler::Action::is_cancelled$", False),
         what="a cancelled head of the queue is pulled (discarded) on every path before the next peek"),
     # ---- executors (C04, C13)
@@ -330,10 +348,22 @@ ENTRIES = {
     "model-task-ends-only-on-error-or-abort": dict(
         body="simulation::add_model::{closure#0}", only_via=any_of(call_is(r"executor::Signal::is_set$", True), call_is(r"Result::is_ok$", False)),
         what="the model task returns only when the abort signal is set or recv reported that the mailbox is closed"),
+    # ---- cached connection list (C14, C03)
+    "scratchpad-refreshes-when-behind": dict(
+        body="util::cached_rw_lock::CachedRwLock::write_scratchpad", effect=calls(r"^std::sync::Mutex::lock$"),
+        excuse=cmp_eq_between(r"atomic::Atomic\w*::load$", "epoch"),
+        what="a port clone whose cached epoch differs from the shared one always takes the shared lock (and refreshes) before sending; the "
+             "only way past the lock is `shared epoch == cached epoch`"),
+    "scratchpad-copies-shared-value": dict(
+        body="util::cached_rw_lock::CachedRwLock::write_scratchpad", start=calls(r"^std::sync::Mutex::lock$"),
+        effect=calls(r"^std::clone::Clone::clone$"), excuse=variant_is({"Err"}, r"Mutex::lock$"),
+        what="once the shared lock is taken the shared value is copied into the cache (except on a poisoned lock)"),
 }
 
 
 def _bodies_of(P, e):
+    if "bodies_fn" in e:
+        return list(e["bodies_fn"](P))
     if "body" in e:
         b = P.body(e["body"])
         return [b] if b is not None else []
